@@ -20,9 +20,10 @@ RULE = ('cases: every non-wrapping grid shape with extents 0..N per axis (plus L
         'generic get_neighbours} entry point. Oracle: [cells in position-table order with Chebyshev (Moore) / Manhattan (von Neumann) '
         'distance <= r from the centre, centre only when asked]; the id answer must be the table indices of the tuple answer. '
         'Non-trivial query: the ball is clipped by the grid on at least one side AND contains >= 2 cells; distinct by (shape, centre, '
-        'radius, kind).')
+        'radius, kind). Every answer is rearranged / emptied by the caller after it was compared (an answer the world kept for itself shows in the next '
+        'identical question); in the truly three-dimensional large worlds every radius from 0 to beyond the diameter is asked, both kinds.')
 ASSUMPTIONS = ['exhaustive only for extents <= N', 'radius >= 0, centre inside the grid, wrap_env=False (as the property states)']
-FLOORS = {'quick': {'queries_of_an_expanding_search': 1274, 'queries_with_an_unbounded_radius': 804, 'cases_in_mode_warnings': 6, 'cases_in_mode_optimised': 6, 'refused_queries': 33, 'radius_numpy_int': 4790, 'keyword_spelling': 9580, 'flag_int': 4790, 'flag_numpy_bool': 4790, 'queries': 56000, 'moore': 28000, 'neumann': 28000, 'center_as_id': 14000, 'center_as_tuple': 14000,
+FLOORS = {'quick': {'radius_sweep_queries_3d': 38, 'answers_modified_by_the_caller': 39632, 'queries_of_an_expanding_search': 1274, 'queries_with_an_unbounded_radius': 804, 'cases_in_mode_warnings': 6, 'cases_in_mode_optimised': 6, 'refused_queries': 33, 'radius_numpy_int': 4790, 'keyword_spelling': 9580, 'flag_int': 4790, 'flag_numpy_bool': 4790, 'queries': 56000, 'moore': 28000, 'neumann': 28000, 'center_as_id': 14000, 'center_as_tuple': 14000,
                     'center_as_position': 14000, 'center_fractional': 14000, 'generic_entry': 28000, 'clipped_queries': 10000,
                     'shapes': 36, 'big_shapes': 2, 'big_queries': 600, 'big_balls_1024_plus': 40, 'non_cubic_shapes': 30, 'reach:Environments.DiscreteWorld.get_moore_neighbours': 28000,
                     'reach:Environments.DiscreteWorld.get_neumann_neighbours': 28000, 'reach:Environments.DiscreteWorld.get_neighbours': 28000},
@@ -42,6 +43,18 @@ def shapes(n):
 
 
 _SPELL = [0]
+
+
+def spoil(ctx, got):
+    """The caller owns the answer: it is rearranged / emptied after it has been compared (picking a random free neighbour does exactly
+    that), so an answer that the world kept for itself shows in the next identical question."""
+    if isinstance(got, list):
+        if len(got) > 1 and len(got) % 2:
+            got.reverse()
+            got.pop()
+        else:
+            got.clear()
+        ctx.count('answers_modified_by_the_caller')
 
 
 def query(ctx, env, cv, r, incl, ret, mode, generic):
@@ -126,6 +139,7 @@ def run_case(ctx, case):
                             raise CaseViolation(f'expanding search around {c}: the {mode_} neighbourhood with radius {r_} (asked right after radius '
                                                 f'{r_ - 1 if form_ is first_form else r_}) as {form_.__name__} differs from the metric ball', shape=case,
                                                 expected=want_[:16], observed=got_[:16] if isinstance(got_, list) else got_)
+                        spoil(ctx, got_)
         for r in range(maxr + 1):
             if ci % 3 == 0 and r == 1:
                 # queries that the world refuses (an unknown cell id, a radius handed over as 1.0 / 2.0, a centre with too few coordinates, an
@@ -158,6 +172,7 @@ def run_case(ctx, case):
                                         f'{mode} neighbourhood of {c} r={r} incl_center={incl} ret={ret.__name__} centre-as-{rep} '
                                         f'{"generic" if generic else "specific"} entry differs from the metric ball',
                                         shape=case, expected=exp, observed=got)
+                                spoil(ctx, got)
                         ctx.count('center_as_' + rep if rep != 'fractional' else 'center_fractional', 4)
                     ctx.count('queries', 16)
                     ctx.count(mode, 16)
@@ -229,8 +244,28 @@ def case_big(ctx, case):
                         raise CaseViolation(f'{mode} neighbourhood of {c} r={r} incl_center={incl} ret={ret.__name__} in a large world differs from the '
                                             f'metric ball ({len(got)} returned, {len(exp)} expected; first difference at position {bad})',
                                             shape=case, expected=exp[max(0, bad - 2):bad + 4], observed=got[max(0, bad - 2):bad + 4])
+                    spoil(ctx, got)
                 if len(ball) >= 1024:
                     ctx.count('big_balls_1024_plus')
+    if min(w, h, d) > 0:
+        # every radius from 0 to beyond the diameter in a truly three-dimensional world (all three offsets non-zero on the rim of the
+        # ball), both kinds, as ids, around a corner and an inner cell
+        for c in (table[0], (w // 3, h // 2, d // 2)):
+            dist = [(max(abs(p[0] - c[0]), abs(p[1] - c[1]), abs(p[2] - c[2])), abs(p[0] - c[0]) + abs(p[1] - c[1]) + abs(p[2] - c[2])) for p in table]
+            for r in range(0, w + h + d + 2):
+                for mode, k in (('moore', 0), ('neumann', 1)):
+                    if mode == 'moore' and r > big + 1:
+                        continue
+                    exp = [i for i, dd in enumerate(dist) if dd[k] <= r and table[i] != c]
+                    got = query(ctx, env, c if r % 2 else index[c], r, False, int, mode, r % 3 == 0)
+                    ctx.ev()
+                    ctx.count('radius_sweep_queries_3d')
+                    if got != exp:
+                        bad = next((j for j, (a, b) in enumerate(zip(got, exp)) if a != b), min(len(got), len(exp)))
+                        raise CaseViolation(f'{mode} neighbourhood of {c} r={r} (every-radius sweep in a three-dimensional world) differs from the metric '
+                                            f'ball ({len(got)} returned, {len(exp)} expected; first difference at position {bad})',
+                                            shape=case, expected=exp[max(0, bad - 2):bad + 4], observed=got[max(0, bad - 2):bad + 4])
+                    spoil(ctx, got)
     ctx.count('big_shapes')
     ctx.distinct(('big', case['cls'], tuple(case['ext'])))
 
